@@ -377,9 +377,10 @@ func main() {
 	one := progsOf(alpha, 1)
 	upTo2 := append(append([][]cop{}, one...), progsOf(alpha, 2)...)
 	if !run.Thorough() {
-		add(2, upTo2, []int{1, 2, 3}, 3)
-		add(3, one, []int{1, 2}, 3)
-		add(3, upTo2, []int{1, 2}, 2)
+		add(2, upTo2, []int{1, 2}, 2)
+		add(3, one, []int{1, 2}, 2)
+		add(2, one, []int{1, 2, 3}, 4)
+		add(2, progsOf(alpha[:3], 2), []int{1}, 3)
 	} else {
 		alpha3 := append(append([]cop{}, alpha...), cop{'G', 2}, cop{'R', 1})
 		add(2, append(progsOf(alpha3, 1), progsOf(alpha3, 2)...), []int{1, 2, 3}, 3)
